@@ -3,6 +3,7 @@
 #[macro_use]
 mod rt;
 mod doubles;
+mod lin;
 mod props;
 
 fn main() {
